@@ -16,9 +16,9 @@ const (
 
 func init() {
 	register(&Rule{
-		ID: "C11",
+		ID:      "C11",
 		Explain: "Decides the replace-by-rename discipline of the snapshot file for every crash point (process-crash semantics): the live path is never removed, never opened with O_TRUNC and always opened with O_APPEND; the only replacement of the live file is os.Rename(temp, live), reached only after the temp's buffered writer was flushed without error and the temp file synced without error (in that order, all writes before the flush), the temp being opened with O_TRUNC|O_CREATE; replay ignores a torn last line; the leave and shutdown paths flush then sync. File-system semantics of rename/fsync are the trusted base.",
-		Run: runC11,
+		Run:     runC11,
 		Mutants: []Mutant{
 			{Name: "clock-field-after-append", File: "serf/snapshot.go", Func: "func (s *Snapshotter) processUserEvent(", Old: "\ts.lastEventClock = e.LTime\n", New: "", Old2: "\ts.tryAppend(fmt.Sprintf(\"event-clock: %d\\n\", e.LTime))\n", New2: "\ts.tryAppend(fmt.Sprintf(\"event-clock: %d\\n\", e.LTime))\n\ts.lastEventClock = e.LTime\n", Expect: "R5"},
 			{Name: "remove-before-rename", File: "serf/snapshot.go", Func: "func (s *Snapshotter) compact(", Old: "\t// Move the new file into place", New: "\t_ = os.Remove(s.path)\n\n\t// Move the new file into place", Expect: "R1"},
@@ -32,9 +32,9 @@ func init() {
 		},
 	})
 	register(&Rule{
-		ID: "C12",
+		ID:      "C12",
 		Explain: "Decides that snapshot I/O failures cannot crash the node or stop recording, structurally: the Snapshotter's file/writer handles are never left nil by any function (a nil store must be overwritten before every return), so no later use dereferences a nil writer; every error of a write/flush on the append path reaches the append wrapper's recovery branch, which (behind the retry interval only) re-runs compaction from in-memory state; errors of open/sync/rename are branched on and never flow into a panic; the tee goroutine that delivers events shares no handle state with the writer goroutine. Which faults an OS can produce and the 30 s timing are not covered.",
-		Run: runC12,
+		Run:     runC12,
 		Mutants: []Mutant{
 			{Name: "handles-nil-on-error", File: "serf/snapshot.go", Func: "func (s *Snapshotter) compact(", Old: "\ts.fh.Close()\n\n\t// Move the new file into place\n", New: "\ts.fh.Close()\n\ts.buffered = nil\n\n\t// Move the new file into place\n", Expect: "R1"},
 			{Name: "recovery-depends-on-old-handle", File: "serf/snapshot.go", Func: "func (s *Snapshotter) compact(", Old: "\ts.fh.Close()\n\n\t// Move the new file into place\n", New: "\tif err := s.fh.Close(); err != nil {\n\t\treturn err\n\t}\n\n\t// Move the new file into place\n", Expect: "R4"},
